@@ -1,6 +1,8 @@
 import QlibcModel.Props.C02
 #print axioms Qlibc.Props.C02.variant_is_234
 #print axioms Qlibc.Props.C02.put_preserves_llrb
+#print axioms Qlibc.Props.C02.remove_preserves_llrb
+#print axioms Qlibc.Props.C02.reachable_llrb
 #print axioms Qlibc.Props.C02.nil_llrb
 #print axioms Qlibc.Props.C02.check_agrees
 #print axioms Qlibc.Props.C02.height_bound
